@@ -64,7 +64,8 @@ type Ctx struct {
 	inlineHelpers bool
 	ftMemo        map[*types.Named][]*ssa.Function
 	faMemo        map[*ssa.Parameter][]*ssa.Function
-	extraCut      map[edge]bool               // edges excluded for the current top-level guard query (a case split on a φ)
+	extraCut      map[edge]bool // edges excluded for the current top-level guard query (a case split on a φ)
+	condDepth     int
 	condEnv       Env                         // canonCond: the frame conditions are rendered in (nil: the function's own)
 	fnSubst       map[ssa.Value]*ssa.Function // guardViaTable: function-valued fields of the current table element
 	gsMemo        map[*ssa.Global]*ssa.Slice
